@@ -129,10 +129,43 @@ def module_terms(tier_quick):
     return mods
 
 
+def stmt_domain(st):
+    """mixed modules: assignments to t are combinational, assignments to u are synchronous"""
+    return "comb" if S._all_leaves(st[1]) <= {T} else "sync"
+
+
+MIXED_COMB = [("assign", t, d), ("assign", ("slice", t, 1, 3, None), e)]
+MIXED_SYNC = [("assign", u, d), ("assign", u, ("b", "+", u, e)), ("assign", ("idx", u, 0), c1)]
+
+
+def mixed_terms():
+    """one control-flow structure driving a combinational and a synchronous signal: bodies are empty, comb-only, sync-only or both"""
+    bodies = [[], [MIXED_COMB[0]], [MIXED_SYNC[0]], [MIXED_SYNC[1]], [MIXED_COMB[1], MIXED_SYNC[2]], [MIXED_SYNC[0], MIXED_COMB[0]]]
+    mods = []
+    for test in (c2, c3):
+        for cs in case_sets(test):
+            n = max(h for _p, h in cs) + 1
+            for bs in itertools.product(bodies, repeat=n):
+                if n >= 4 and bs[3] is not bodies[1] and bs[3] is not bodies[2]:
+                    continue
+                mods.append([("switch", test, [(p, bs[h]) for p, h in cs])])
+    for ca, cb in ((c1, c2), (c3, c1)):
+        for b0, b1, b2 in itertools.product(bodies, repeat=3):
+            mods.append([("if", [(ca, b0), (cb, b1)], b2)])
+            mods.append([("if", [(ca, b0), (cb, b1)], None), MIXED_SYNC[0] if b2 and stmt_domain(b2[0]) == "comb" else MIXED_COMB[0]])
+    for b0, b1 in itertools.product(bodies, repeat=2):
+        mods.append([("if", [(c2, b0)], b1)])
+        mods.append([("if", [(c1, [("switch", c2, [((1,), b0), (None, b1)])])], b0)])
+    return mods
+
+
 def emit(m, dom, stmts, sigs):
     for st in stmts:
         if st[0] == "assign":
-            dom += build_target(st[1], sigs).eq(G.build(st[2], sigs))
+            if dom == "mixed":
+                m.d[stmt_domain(st)] += build_target(st[1], sigs).eq(G.build(st[2], sigs))
+            else:
+                dom += build_target(st[1], sigs).eq(G.build(st[2], sigs))
         elif st[0] == "if":
             for n, (cond, body) in enumerate(st[1]):
                 with (m.If if n == 0 else m.Elif)(G.build(cond, sigs)):
@@ -198,7 +231,7 @@ def run_batch(task):
         for i, (w, sg, init) in DRIVEN.items():
             sigs[i] = Signal(Shape(w, sg), init=init, name=f"m{n}_{i}")
         try:
-            emit(m, m.d[domain], stmts, sigs)
+            emit(m, "mixed" if domain == "mixed" else m.d[domain], stmts, sigs)
         except Exception as ex:
             out["violations"].append({"sig": f"build:{domain}:{show_stmts(stmts)}",
                                       "what": f"module rejected: {type(ex).__name__}: {ex}", "payload": {"stmts": stmts, "domain": domain}})
@@ -220,7 +253,8 @@ def run_batch(task):
     drv_idx = sorted(DRIVEN)
     out_cat = Cat(*[sigs[i] for _s, sigs in copies for i in drv_idx])
     tot_w = sum(DRIVEN[i][0] for i in drv_idx)
-    if domain == "sync":
+    u_cat = Cat(*[sigs[U] for _s, sigs in copies])
+    if domain in ("sync", "mixed"):
         states = [tuple(DRIVEN[i][2] for i in drv_idx), (0, 0), (-1 & 15, -1), (0b1010, 2), (0b0011, -4)]
     else:
         states = [None]
@@ -237,6 +271,9 @@ def run_batch(task):
                 allst = 0
                 for n in range(len(copies)):
                     allst |= packed1 << (n * tot_w)
+                u_all = 0
+                for n in range(len(copies)):
+                    u_all |= R.bits_of(st[drv_idx.index(U)], DRIVEN[U][0]) << (n * DRIVEN[U][0])
             for vals in itertools.product(*[R.values_of(*INPUTS[i]) if i in used_inputs else [0] for i in in_idx]):
                 packed, off = 0, 0
                 for v, w in zip(vals, in_w):
@@ -244,7 +281,10 @@ def run_batch(task):
                     off += w
                 ctx.set(in_cat, packed)
                 if st is not None:
-                    ctx.set(out_cat, allst)
+                    if domain == "mixed":
+                        ctx.set(u_cat, u_all)          # only u is a register here; t is combinational (or undriven: keeps its init)
+                    else:
+                        ctx.set(out_cat, allst)
                     ctx.set(cd.clk, 1)
                     ctx.set(cd.clk, 0)
                 big = ctx.get(out_cat)
@@ -255,11 +295,20 @@ def run_batch(task):
                         nxt = {i: R.from_bits(DRIVEN[i][2], DRIVEN[i][0], DRIVEN[i][1]) for i in drv_idx}
                         for i in drv_idx:
                             c[i] = nxt[i]        # comb RHS never reads driven signals in this grammar
+                        S.run_stmts(stmts, c, nxt, shapes)
+                    elif domain == "mixed":
+                        # t is combinational (init overridden), u is a register (previous value overridden); one control-flow
+                        # structure, each domain sees only its own assignments
+                        for i, v in zip(drv_idx, st):
+                            c[i] = R.from_bits(v, DRIVEN[i][0], DRIVEN[i][1])
+                        nxt = {T: R.from_bits(DRIVEN[T][2], DRIVEN[T][0], DRIVEN[T][1]), U: c[U]}
+                        S.run_stmts(stmts, c, nxt, shapes, only=lambda a: stmt_domain(a) == "comb")
+                        S.run_stmts(stmts, c, nxt, shapes, only=lambda a: stmt_domain(a) == "sync")
                     else:
                         for i, v in zip(drv_idx, st):
                             c[i] = R.from_bits(v, DRIVEN[i][0], DRIVEN[i][1])
                         nxt = {i: c[i] for i in drv_idx}
-                    S.run_stmts(stmts, c, nxt, shapes)
+                        S.run_stmts(stmts, c, nxt, shapes)
                     out["cov"]["evaluations"] += 1
                     got = []
                     o = n * tot_w
@@ -406,6 +455,14 @@ def run(rep):
         tasks += [("b", (ch, "comb")) for ch in chunks(ms, size)]
         sync_ms = ms if not rep.quick else ms[::3]
         tasks += [("b", (ch, "sync")) for ch in chunks(sync_ms, max(5, size // 3))]
+    mixed = mixed_terms()
+    rep.setcov("mixed_domain_module_terms", len(mixed))
+    mgroups = {}
+    for mo in mixed:
+        mgroups.setdefault(tuple(sorted(inputs_of(mo))), []).append(mo)
+    for key, ms in mgroups.items():
+        bits = sum(INPUTS[i][0] for i in key)
+        tasks += [("b", (ch, "mixed")) for ch in chunks(ms, max(5, 100 >> max(0, bits - 6)))]
     specs = fsm_specs()
     for ch in chunks(specs, 2):
         tasks.append(("fsm", (ch, rep.pick(4, 6))))
